@@ -3,7 +3,10 @@
 
 TRANSLATED (tools/rs2v) into Gallina over the types of the hand model (Model/Svg.v):
   rgb_value, color_name, color_styles, split_lines, write_fg_span, write_bg_span and
-  Term::render_svg (the INVERT pre-pass, the geometry, the whole template).
+  Term::render_svg (the INVERT pre-pass, the geometry, the whole template);
+  Term::{new, palette, fg_color, bg_color, background, min_width_px}, `impl Default for Term` and the constants
+  FG_COLOR / BG_COLOR over the WHOLE struct (Model/Svg.svg_term_full: all seven fields, per-field setters;
+  second vocabulary VOCAB_TERM, no oracle parameter).
 Proofs/SvgGen.v proves every translation equal to the hand model the theorems of C14 are about.
 
 What these functions CALL is vocabulary:
@@ -15,25 +18,26 @@ What these functions CALL is vocabulary:
     `.unwrap()` on the fmt::Result is the identity);
   * anstyle: Style::{get_fg_color, get_bg_color, get_underline_color, get_effects, fg_color, bg_color, effects},
     Effects::{new, contains, remove, |=, constants}, Ansi256Color::{from_ansi, index} (the functions translated in
-    Generated/LossyFn.v), anstyle_lossy::color_to_rgb (Generated/LossyFn.g_color_to_rgb);
-  * anstream: WinconBytes::new().extract_next(bytes).collect() = Proofs/WinconGen.g_extract_next on a fresh
-    parser and capture (the translated styled-run extractor; WinconBytes::new is pinned below);
+    Generated/LossyFn.v), anstyle_lossy::color_to_rgb (Generated/LossyFn.g_color_to_rgb), the palette constant
+    `VGA` (Generated/Palette.vga; the `pub use anstyle_lossy::palette::VGA;` line is checked);
+  * anstream: WinconBytes::new() = Generated/WinconFn.g_wb_new and `.extract_next(bytes).collect()` =
+    Proofs/WinconGen.gt_extract_next (the drain of the TRANSLATED WinconBytes::extract_next / WinconBytesIter::next):
+    nothing of adapter/wincon.rs is pinned here any more, an edit of WinconBytes::new changes g_wb_new and breaks
+    g_wb_new_eq / translated_wb_extract_next_is_model (Proofs/WinconGen.v), which render_svg's proof rewrites with
+    (WinconFn is in C14's gen_deps);
   * html_escape::encode_text (third party): Model/Svg.svg_encode_text;
-  * the ORACLE `o : svg_oracle` (first argument of every translated function): unicode_width's
+  * the ORACLE `o : svg_oracle` (first argument of every function translated with VOCAB): unicode_width's
     UnicodeWidthStr::width, the f64 expression `(x as f64 * 8.4).ceil() as usize` as a function of x, and
     Term::min_width_px -- exactly what the hand model leaves to its arguments width_px / wf.
 
-HAND-MODELLED, pinned by token hash:
-  * Term::new and the list of methods of `impl Term` (font_family and padding_px have no setter: their getters are
-    the constants tools/gen_svg.py reads from Term::new);
-  * Term::{palette, fg_color, bg_color, background, min_width_px} and `impl Default for Term` (builder plumbing:
-    the hand model's counterpart is the record constructor mkSvgTerm);
-  * WinconBytes::new (Default::default() of a derive: a fresh parser and capture)."""
+CHECKED, not hashed: the exact list of methods of `impl Term` (render_svg's translation reads font_family / padding_px
+as the constants of Term::new because no method assigns them; Proofs/SvgGen.v proves that Term::new establishes and
+every builder of the list keeps svg_tf_consts).  No token pin is left in this plug-in."""
 import os
 import sys
 
 sys.path.insert(0, os.path.dirname(os.path.abspath(__file__)))
-from rs2v.driver import translate, TranslateError, token_hash, fn_source   # noqa: E402
+from rs2v.driver import translate, TranslateError                          # noqa: E402
 from rs2v.emit import EmitError, NeedsBind, Emitter, Env                    # noqa: E402
 from rs2v.rparser import parse_macro_args, parse_file, find_items, ParseError   # noqa: E402
 from rs2v.lexer import tokenize                                             # noqa: E402
@@ -334,7 +338,9 @@ m_btree_insert.mutates = True
 
 
 def m_extract_next(em, e, rt, rty, env, k):
-    """WinconBytes::extract_next(bytes) drained (`.collect()` follows): the translated extractor"""
+    """WinconBytes::extract_next(bytes) drained (`.collect()` follows): Proofs/WinconGen.gt_extract_next, the drain of the
+    TRANSLATED WinconBytes::extract_next / WinconBytesIter::next (Generated/WinconFn.v) with the iterator's parser and
+    capture copied back into the WinconBytes it borrows from"""
     if len(e.args) != 1:
         raise EmitError("extract_next: one argument expected")
     if em.pure_mode:
@@ -343,9 +349,9 @@ def m_extract_next(em, e, rt, rty, env, k):
     def k1(t, ty, env1):
         if ty != BYTES:
             raise EmitError("extract_next of a value of type %r" % (ty,))
-        runs, p, c = em.fresh("runs"), em.fresh("parser"), em.fresh("capture")
-        head = "'(%s, %s, %s) <- g_extract_next %s (fst %s) (snd %s) ;;\n" % (runs, p, c, t, rt, rt)
-        return head + em.write_place(e.recv, "(%s, %s)" % (p, c), env1, lambda env2: k(runs, ("list", RUN), env2))
+        runs, wb = em.fresh("runs"), em.fresh("wb")
+        head = "'(%s, %s) <- gt_extract_next %s %s ;;\n" % (runs, wb, t, rt)
+        return head + em.write_place(e.recv, wb, env1, lambda env2: k(runs, ("list", RUN), env2))
     return em.expr(e.args[0], env, k1)
 
 
@@ -405,7 +411,7 @@ def fuel_split_lines(env):
 
 VOCAB = {
     "config_param": ("o", "svg_oracle"),
-    "reserved": ["o", "t", "s", "k", "svg_o_uw", "svg_o_ceil84", "g_extract_next", "g_color_to_rgb", "g_from_ansi", "g_a256_index",
+    "reserved": ["o", "t", "s", "k", "svg_o_uw", "svg_o_ceil84", "g_extract_next", "gt_extract_next", "g_wb_new", "g_color_to_rgb", "g_from_ansi", "g_a256_index",
                  "parser_new", "capture_default", "existsb", "flat_map", "option_map", "color", "colour", "rgb", "N", "max", "lor", "ldiff"],
     "str_chars": STR,
     "for_mut": True,
@@ -436,7 +442,7 @@ VOCAB = {
         "Ansi256Color": {"coq": "N", "var": "i", "check": False, "fields": {"0": ("a256_f0", None, U8)}},
         "Palette": {"coq": "(list rgb)", "var": "p", "check": False, "fields": {}},
         "BTreeMap": {"coq": "(list (list N * list N))", "var": "m", "check": False, "fields": {}},
-        "WinconBytes": {"coq": "(parser * capture)", "var": "wb", "check": False, "fields": {}},
+        "WinconBytes": {"coq": "wbytes", "var": "wb", "check": False, "fields": {}},
     },
     "consts": dict([("Effects::" + n, ("eff_" + n.lower(), EFFECTS)) for n in EFFECT_NAMES] + [
         ("ANSI_NAMES", ("svg_ansi_names", ("list", STR))),
@@ -452,7 +458,7 @@ VOCAB = {
         "String::new": f_const("[]", STR, "String::new"),
         "BTreeMap::new": f_const("[]", BTREE, "BTreeMap::new"),
         "Effects::new": f_const("0", EFFECTS, "Effects::new"),
-        "WinconBytes::new": f_const("(parser_new, capture_default)", WBYTES, "WinconBytes::new"),
+        "WinconBytes::new": f_const("g_wb_new", WBYTES, "WinconBytes::new"),      # translated in Generated/WinconFn.v
         "html_escape::encode_text": shape("svg_encode_text", [("in", STR)], STR),
         "anstyle_lossy::color_to_rgb": shape("g_color_to_rgb", [("in", COLOR), ("in", PAL)], RGB, total=False),
         "Ansi256Color::from_ansi": shape("g_from_ansi", [("in", ANSI)], A256, total=False),
@@ -560,7 +566,6 @@ Local Open Scope N_scope.
 Local Open Scope bool_scope."""
 
 # hand-modelled, pinned by token hash
-PIN_WINCON_NEW = "6d04de4a0dc0f8a7"      # WinconBytes::new: Default::default() of a derive = (parser_new, capture_default)
 # the exact list of methods of `impl Term`: font_family / padding_px have no setter, which is what lets render_svg's
 # translation read them as the constants of Term::new (svg_t_font_family / svg_t_padding; Proofs/SvgGen.v proves that
 # Term::new and every builder listed here keep svg_tf_consts).  A new method is a GEN-ERROR: it must be translated too.
@@ -604,7 +609,6 @@ def register(generators, gm):
     def gen():
         try:
             src = gm.read(SRC)
-            wsrc = gm.read("crates/anstream/src/adapter/wincon.rs")
             names = impl_fn_names(src, "Term")
             if names != TERM_METHODS:
                 raise TranslateError("impl Term: methods %s, expected %s (a new setter would make a constant field variable)" % (names, TERM_METHODS))
@@ -612,9 +616,6 @@ def register(generators, gm):
             for need in TERM_USES:
                 if squash(need) not in sq:
                     raise TranslateError("`%s` not found (the vocabulary of Term::new depends on it)" % need)
-            h = token_hash(fn_source(wsrc, "new", "WinconBytes"))
-            if h != PIN_WINCON_NEW:
-                raise TranslateError("WinconBytes::new changed (token hash %s, pinned %s): modelled as a fresh parser and capture" % (h, PIN_WINCON_NEW))
             shapes = {}
             out = []
             for tgt in TARGETS:
